@@ -14,7 +14,8 @@ import (
 
 // C11 addition: ONE decoder instance (and one reader instance) used for a history of symbols
 // of changing size and type - in particular full-range and compact symbols with the same
-// layer count back to back.  Every symbol of the history must decode to its text.
+// layer count back to back.  Every symbol of the history must decode to its text; symbols that have to be refused (after or
+// before error correction) are fed in between.
 func c11ReuseCase(r *fw.Rec) {
 	rng := r.Rng
 	dec := azdec.NewDecoder()
@@ -35,6 +36,49 @@ func c11ReuseCase(r *fw.Rec) {
 			}
 		}
 		prev = s
+		if rng.Intn(3) == 0 {
+			// in between, a symbol the decoder has to refuse AFTER error correction succeeded (its
+			// bit stream announces an unregistered character set, or the reserved FLG(7)), or one
+			// damaged beyond repair: whatever it leaves behind must not reach the next symbol
+			enc := azref.NewEncoder()
+			for i := 0; i < 2+rng.Intn(6); i++ {
+				enc.Char(2 + rng.Intn(26))
+			}
+			bits := append([]bool{}, enc.Bits()...)
+			switch rng.Intn(3) {
+			case 0:
+				enc.ECI(100 + rng.Intn(700))
+				for i := 0; i < 3+rng.Intn(20); i++ {
+					enc.Char(1 + rng.Intn(27))
+				}
+				bits = append([]bool{}, enc.Bits()...)
+			case 1: // P/S, FLG(n) with n = 7, then ones
+				for _, b := range "0000000000111" {
+					bits = append(bits, b == '1')
+				}
+				for i := 0; i < 10+rng.Intn(100); i++ {
+					bits = append(bits, true)
+				}
+			}
+			if bad, ok := azref.Build(s, bits, 3); ok {
+				m := bad.Matrix
+				if rng.Intn(3) == 0 {
+					idx := rng.Perm(len(bad.Words))[:minInt(len(bad.Words), bad.MaxCorrectable()+2+rng.Intn(3))]
+					vals := make([]int, len(idx))
+					for i := range vals {
+						vals[i] = rng.Intn(1 << uint(s.WordSize()))
+					}
+					m = azref.BuildDamaged(bad, idx, vals)
+				}
+				_, _, panicked := fw.Guard(func() {
+					dec.Decode(azdet.NewAztecDetectorResult(azBitMatrix(m), nil, s.Compact, bad.DataWords, s.Layers))
+				})
+				if !panicked {
+					r.Tally("reused_decoder_refusable_symbols_in_between")
+					hist = append(hist, azSpecName(s)+"(refusable)")
+				}
+			}
+		}
 		var sym *azref.Symbol
 		var text []byte
 		for tries := 0; tries < 30 && sym == nil; tries++ {
